@@ -132,6 +132,10 @@ func (m *Variant) Decode(b []byte) (int, error) {
 
 	// read single value and return
 	if !m.Has(VariantArrayValues) {
+		// The dimensions flag is meaningless without the array flag. Drop it:
+		// Encode would otherwise append a dimensions field that Decode never
+		// reads for a scalar, shifting whatever follows the variant.
+		m.mask &^= VariantArrayDimensions
 		m.value = m.decodeValue(buf)
 		return buf.Pos(), buf.Error()
 	}
